@@ -144,3 +144,12 @@ Proof.
   intros p. rewrite gen_normalize_path_eq. split; [apply normalize_path_is_rfc|apply normalize_path_nodots].
 Qed.
 Print Assumptions C15_source_is_rfc.
+
+(** Tie to the source: the constructor these theorems start from is the one yarl/_url.py
+    defines - encode_url is re-translated from the working tree on every run and builds the
+    model's URL value on every input (statement and trusted base: C07_source_encode_url). *)
+From Yarl Require Import Model.Url Model.GenTypes Generated.UrlGen Proofs.GenUrlProofs.
+Theorem C15_source_encode_url : forall (O : oracles) (B : backend) (s : str),
+  same_outcome (gen_encode_url O B s) (encode_url O B s).
+Proof. exact gen_encode_url_ok. Qed.
+Print Assumptions C15_source_encode_url.
